@@ -225,7 +225,10 @@ func (s *SoftwrapScanner) Scan() bool {
 	// Clear token
 	s.token = []vaxis.Cell{}
 
-	var w uint16
+	// Widths are summed as ints: a uint16 sum wraps for words wider than
+	// 65535 columns, which were then taken to fit on the line
+	width := int(s.width)
+	var w int
 	for {
 		seg, br := firstLineSegment(s.rest)
 		rest := []vaxis.Cell{}
@@ -235,8 +238,8 @@ func (s *SoftwrapScanner) Scan() bool {
 
 		var (
 			word     []vaxis.Cell
-			wordLen  uint16
-			spaceLen uint16
+			wordLen  int
+			spaceLen int
 		)
 
 		// "TrimRight"
@@ -254,30 +257,30 @@ func (s *SoftwrapScanner) Scan() bool {
 		// Trailing space is anything after word
 		trSpace := seg[len(word):]
 		for _, ch := range word {
-			wordLen += uint16(ch.Width)
+			wordLen += ch.Width
 		}
 		for _, ch := range trSpace {
-			spaceLen += uint16(ch.Width)
+			spaceLen += ch.Width
 		}
 
 		// This word is longer than the line. We have to break on
 		// graphemes
-		if wordLen > s.width {
+		if wordLen > width {
 			s.rest = []vaxis.Cell{}
 			// Append characters to token until we reach the end
 			for _, char := range word {
 				// A grapheme which doesn't fit on the partly filled line
 				// ends it: a wide grapheme must not overflow the width
-				if len(s.token) > 0 && w+uint16(char.Width) > s.width {
-					w = s.width
+				if len(s.token) > 0 && w+char.Width > width {
+					w = width
 				}
-				if w >= s.width {
+				if w >= width {
 					// Append the rest to rest
 					s.rest = append(s.rest, char)
 					continue
 				}
 				s.token = append(s.token, char)
-				w += uint16(char.Width)
+				w += char.Width
 			}
 			// Append the trailing space
 			s.rest = append(s.rest, trSpace...)
@@ -287,7 +290,7 @@ func (s *SoftwrapScanner) Scan() bool {
 		}
 
 		// Check if this segment fits. If it doesn't we are done
-		if w+wordLen > s.width {
+		if w+wordLen > width {
 			return true
 		}
 
@@ -310,7 +313,7 @@ func (s *SoftwrapScanner) Scan() bool {
 		w += wordLen
 
 		// If the space doesn't fit, we return now
-		if w+spaceLen > s.width {
+		if w+spaceLen > width {
 			return true
 		}
 
